@@ -1,5 +1,6 @@
 // Multigraph and weighted classes: edge-list constructors (C09) and Dijkstra (C12, C19, C07).
 #include "algo.hpp"
+#include <tuple>
 
 namespace verif {
 
@@ -58,8 +59,27 @@ class MWFamily : public IAlgoFamily {
             r.fail("constructor from std::multiset differs from the same sequence in a std::vector");
     }
 
+    // Every Dijkstra case is run three times: with the integer weights as they are, in units
+    // of 2^-54 and in units of 2^40 (all path sums stay exactly representable, so the
+    // distances must scale exactly): absolute tolerances and narrow accumulators show up.
     template <class W> void dijkstra(const json &c, unsigned order, CaseResult &r) {
-        const W g0 = buildFromEnc<W>(c.at("g"), order);
+        // ... and once in units of 0.1 (path sums are then inexact: only the amount of work, C19,
+        // is judged on those records)
+        for (double unitW : {1.0, 5.551115123125783e-17 /* 2^-54 */, 1099511627776.0 /* 2^40 */, 0.1}) {
+            dijkstraScaled<W>(c, order, unitW, r);
+            if (!r.ok)
+                return;
+        }
+    }
+    template <class W> void dijkstraScaled(const json &c, unsigned order, double unitW, CaseResult &r) {
+        W g0 = buildFromEnc<W>(c.at("g"), order);
+        if (unitW != 1.0) {
+            std::vector<std::tuple<VertexIndex, VertexIndex, double>> es;
+            for (auto e : g0.edges())
+                es.emplace_back(e.first, e.second, g0.getEdgeWeight(e.first, e.second));
+            for (auto &t : es)
+                g0.setEdgeWeight(std::get<0>(t), std::get<1>(t), std::get<2>(t) * unitW);
+        }
         const size_t n = g0.getSize();
         size_t E = 0;
         for (VertexIndex v = 0; v < n; ++v)
@@ -71,20 +91,27 @@ class MWFamily : public IAlgoFamily {
                     continue;
             }
             json rec = {{"k", "dijkstra"}, {"dir", GInfo<W>::directed}, {"g", c.at("g")}, {"s", s},
-                        {"V", n}, {"E", E}, {"family", GInfo<W>::name()}};
+                        {"V", n}, {"E", E}, {"family", GInfo<W>::name() + (unitW == 1.0 ? "" : unitW == 0.1 ? " [weights x 0.1]" : unitW < 1 ? " [weights x 2^-54]" : " [weights x 2^40]")}};
             try {
                 CountW<W> cg(g0);
                 cg.cap = 64 * (n + E) + 64;
                 auto res = algorithms::findGeodesicsDijkstra(cg, s);
                 rec["scans"] = cg.scans;
                 json d = json::array();
-                for (double x : res.first) {
+                const bool inexact = unitW == 0.1;
+                rec["inexact"] = inexact;
+                for (double x0 : res.first) {
+                    if (inexact) {
+                        d.push_back(-2);
+                        continue;
+                    }
+                    double x = x0 == algorithms::BASEGRAPH_INFINITY ? x0 : x0 / unitW;
                     if (x == algorithms::BASEGRAPH_INFINITY)
                         d.push_back(SENT);
                     else if (x == std::nearbyint(x) && x >= 0 && x < 1e9)
                         d.push_back((long long)x);
                     else
-                        return r.fail("distance " + std::to_string(x) + " is not a non-negative integer");
+                        return r.fail("distance " + std::to_string(x0) + " is not a non-negative integer multiple of the weight unit");
                 }
                 rec["dist"] = d;
                 rec["pred"] = seqJson(res.second);
